@@ -236,7 +236,10 @@ def mc_cached(module, cfg, tag, **kw):
     r = mc_run(module, cfg, tag, **kw)
     r.pop("out", None)
     r["cached"] = False
-    json.dump(r, open(cf, "w"))
+    tmp = cf + ".%d.tmp" % os.getpid()
+    with open(tmp, "w") as f:
+        json.dump(r, f)
+    os.replace(tmp, cf)                 # atomic: another check may be reading the cache at this moment
     return r
 
 
